@@ -53,6 +53,8 @@ type RunCtx struct {
 	Sample     any
 	Nontrivial bool
 	Det        []string // extra deterministic event log lines (compared by the determinism self-check)
+	Cases      int      // worlds that run several small cases per index report how many (0 = one)
+	CaseHashes []string // hashes of the distinct non-trivial cases of this index
 }
 
 func (rc *RunCtx) Violate(class, format string, args ...any) {
@@ -135,6 +137,8 @@ type RunResult struct {
 	WallMicros int64            `json:"wall_us"`
 	DetHash    string           `json:"det"`
 	TapeLen    [3]int           `json:"tape_len"`
+	Cases      int              `json:"cases,omitempty"`
+	CaseHashes []string         `json:"case_hashes,omitempty"`
 }
 
 // ReplayFile is what a violation is reported as.
@@ -203,7 +207,7 @@ func (rc *RunCtx) result(wall time.Duration) *RunResult {
 	return &RunResult{Prop: rc.Prop, Index: rc.Index, Seed: rc.Seed, Faults: rc.Faults, Mode: rc.Mode, Viol: rc.Viol, Steps: rc.Steps, Multi: rc.Multi,
 		Bubbles: rc.Bubbles, SimNanos: rc.SimNanos, Hash: strconv.FormatUint(rc.Hash, 16), Probes: rc.Probes, Fired: rc.Fired, EndReasons: rc.EndReasons,
 		Sample: rc.Sample, Nontrivial: rc.Nontrivial, WallMicros: wall.Microseconds(), DetHash: strconv.FormatUint(h, 16),
-		TapeLen: [3]int{rc.Tape.Used(0), rc.Tape.Used(1), rc.Tape.Used(2)}}
+		TapeLen: [3]int{rc.Tape.Used(0), rc.Tape.Used(1), rc.Tape.Used(2)}, Cases: rc.Cases, CaseHashes: rc.CaseHashes}
 }
 
 func envInt(name string, def int64) int64 {
